@@ -264,7 +264,19 @@ fn gen_fmt4(c: &mut Chooser<'_>, max_segs: usize, rich: bool) -> (Vec<Seg4>, Ter
         }
         min_start = end as u32 + 1;
     }
-    let term = if c.dev(2) == 1 { Term4::Fontographer } else { Term4::Standard };
+    let term = [Term4::Standard, Term4::Fontographer, Term4::InLastSegment][c.dev(3)];
+    if term == Term4::InLastSegment {
+        // the final segment ends at 0xFFFF and maps real characters (no stand-alone terminator segment)
+        let cands: Vec<u16> = [0xFFF9u16, 0xFFFE, 0xFFFF].iter().copied().filter(|s| *s as u32 >= min_start).collect();
+        let start = *c.of(&cands);
+        let len = (0xFFFFu32 - start as u32 + 1) as usize;
+        if c.pick(2) == 0 {
+            segs.push(Seg4::Delta { start, end: 0xFFFF, delta: [(10i32 - start as i32) as i16, 1][c.pick(2)] });
+        } else {
+            let entries: Vec<u16> = (0..len).map(|k| if k % 3 == 1 { 0 } else { 3 + k as u16 }).collect();
+            segs.push(Seg4::Array { start, end: 0xFFFF, delta: ADELTAS4[c.pick(2)], entries });
+        }
+    }
     (segs, term)
 }
 
